@@ -46,3 +46,9 @@ impl<'a, T> ShimIntoIter for &'a [T] {
     #[verifier::external_body]
     fn shim_iter(self) -> (r: ShimIter<&'a T>) { unimplemented!() }
 }
+impl<T, const N: usize> ShimIntoIter for [T; N] {
+    type Item = T;
+    open spec fn items(&self) -> Seq<T> { self@ }
+    #[verifier::external_body]
+    fn shim_iter(self) -> (r: ShimIter<T>) { unimplemented!() }
+}
